@@ -3,7 +3,7 @@ Require Import Value GenCache CacheModel CacheProofs.
 Import ListNotations.
 Local Open Scope Z_scope.
 
-(* C18 at full strength for the data cache (compiles once the os.remove in the except handler is guarded). *)
+(* C18 at full strength for the data cache: any number of processes, any schedule, no process dies of an exception. *)
 Theorem data_concurrent_starts_agree :
   forall (w : world) (c : content) (sched : list (nat * action)),
   data_admissible (w_cur w) (w_src w) c -> (forall k, c <> CPartial k) -> sched_ok sched ->
